@@ -129,6 +129,60 @@ def render(frames):
     return ','.join(out) if out else '-'
 
 
+def seq_pending_error(rep, rng):
+    """basic.get on a channel that has an error parked on it (a returned message, or several): the call fails
+    before anything is sent - and must leave no reply bookkeeping behind"""
+    import amqpstorm
+    import amqpstorm.rpc as arpc
+    import types
+    from amqpstorm.exception import AMQPMessageError
+    n = rng.randint(1, 3)
+    sc = SeqChannel(rpc_timeout=2)
+    for k in range(n):
+        sc.ch.exceptions.append(AMQPMessageError('returned %d' % k, reply_code=312))
+    replay = {'kind': 'seq-pending-error', 'errors': n}
+    saved = arpc.time
+    arpc.time = types.SimpleNamespace(time=lambda: sc.now, sleep=sc.sleep)
+    try:
+        raised = 0
+        for k in range(n):
+            try:
+                sc.ch.basic.get('q')
+                res = 'returned'
+            except AMQPMessageError:
+                res = 'raised'
+                raised += 1
+            except Exception as why:   # noqa
+                res = 'raised other:%s' % type(why).__name__
+            req, resp = len(sc.ch.rpc._request), len(sc.ch.rpc._response)
+            if req or resp:
+                rep.violation('C15/residue/failed-send', 'get failed before sending (%s) and left %d request / %d response entries' % (
+                    res, req, resp), replay)
+                break
+        wrote = [w for w in sc.written if w[1] == 'Basic.Get']
+        if raised != n or wrote:
+            rep.violation('C15/pending-error', '%d parked errors: %d gets raised, Basic.Get written %d times' % (n, raised, len(wrote)), replay)
+        # the channel is still usable: a get now works and consumes a whole reply
+        tag = rng.randint(1, 1 << 20)
+        body = bytes([rng.randrange(256)]) * rng.randint(0, 300)
+        sc.arrivals = [spec.Basic.GetOk(delivery_tag=tag, redelivered=False, exchange='', routing_key='rk', message_count=0),
+                       pheader.ContentHeader(body_size=len(body), properties=spec.Basic.Properties())] + \
+            ([pbody.ContentBody(body)] if body else [])
+        sc.eager = rng.randint(0, len(sc.arrivals))
+        try:
+            m = sc.ch.basic.get('q')
+            if m is None or m._body != body or m.method['delivery_tag'] != tag:
+                rep.violation('C15/message/after-failed-get', 'the get after the failed ones returned %r' % (None if m is None else m._body[:20],), replay)
+        except Exception as why:   # noqa
+            rep.violation('C15/next-call/after-failed-get', 'the get after the failed ones raised %r' % (why,), replay)
+        if sc.ch.rpc._request or sc.ch.rpc._response:
+            rep.violation('C15/residue', 'tables not empty after the get that followed failed ones', replay)
+    finally:
+        arpc.time = saved
+    rep.case(('seq-pending-error', n, sc.eager), True, sample=replay)
+    rep.count('seq_kind', 'pending-error')
+
+
 def seq_case(rep, rng, lines, expect):
     import amqpstorm
     import amqpstorm.rpc as arpc
@@ -289,6 +343,8 @@ def check(rep):
     lines, expect = [], []
     for _ in range(1500 if not thorough else 20000):
         seq_case(rep, rng, lines, expect)
+        if rng.random() < 0.05:
+            seq_pending_error(rep, rng)
     jobs = []
     for _ in range(60 if not thorough else 1200):
         then = rng.choice([None, None, 'silence', 'close', 'die'])
